@@ -136,3 +136,19 @@ Proof.
   rewrite (Ar x (or_introl eq_refl)), N.eqb_refl. cbn [app]. apply IH. intros l Il. apply Ar. now right.
 Qed.
 
+
+(* MD032 says something (must or open) only about the first line of a list that is not directly inside a list item *)
+Lemma md032_per_only ls lvs l x : In x (fst (md032_per ls lvs l)) \/ In x (snd (md032_per ls lvs l)) -> in_item l = false /\ x = l_sl l.
+Proof.
+  unfold md032_per. destruct (in_item l); [cbn; tauto|].
+  destruct (md032_side ls lvs l (l_sl l - 1)) as [m1 o1]. destruct (md032_side ls lvs l (S (l_el l))) as [m2 o2].
+  destruct (blank_at lvs (l_el l)); cbn [fst snd]; intros [H|H];
+    match type of H with In _ (if ?b then _ else _) => destruct b end; cbn in H; try tauto; destruct H as [<-|[]]; auto.
+Qed.
+
+Lemma md032_at_lists_l ls lvs lsts ln :
+  In ln (must (md032 ls lvs lsts)) \/ In ln (open_ (md032 ls lvs lsts)) -> exists l, In l lsts /\ in_item l = false /\ l_sl l = ln.
+Proof.
+  unfold md032. cbn [must open_]. intros [H|H]; apply in_flat_map in H as (p & Ip & Hp); apply in_map_iff in Ip as (l & <- & Il);
+    exists l; (split; [exact Il|]); [destruct (md032_per_only ls lvs l ln (or_introl Hp)) | destruct (md032_per_only ls lvs l ln (or_intror Hp))]; auto.
+Qed.
